@@ -353,6 +353,48 @@ def shared_base_sampler_case(order):
     return Case(name, body, goals, family="share_base_sampler", params=dict(order=order))
 
 
+def shared_static_with_adaptive_case(order):
+    """the user's static sampler with a FINITE resample interval is shared by a PINN condition and an
+    AdaptiveWeightsCondition: constructing the latter leaves the sampler object as it was (interval, counter), the PINN
+    loss still repeats exactly within the interval; a non-static sampler is still refused by the adaptive condition"""
+    name = "share_static_sampler_with_adaptive_condition/%s" % order
+
+    def body(env):
+        W = build_world(env, ("x",))
+        env.assume(env.L.lt(env.v(W.lb_t), env.v(W.ub_t)))
+        base = tp.samplers.RandomUniformSampler(W.interval, n_points=2)
+        shared = base.make_static(2)
+
+        def pinn():
+            return C.PINNCondition(W.model, shared, K.make_fn(["u", "x"], lambda u, x: u + x * x, "resP"))
+
+        def adaptive():
+            return C.AdaptiveWeightsCondition(W.model, shared, K.make_fn(["u", "x"], lambda u, x: u - x, "resA"))
+
+        if order == "pinn_first":
+            p, a = pinn(), adaptive()
+        else:
+            a, p = adaptive(), pinn()
+        interval_after = shared.resample_interval
+        losses = [p().reshape(-1) for _ in range(4)]
+        refused = False
+        try:
+            C.AdaptiveWeightsCondition(W.model, base, K.make_fn(["u", "x"], lambda u, x: u - x, "resB"))
+        except ValueError:
+            refused = True
+        return dict(losses=losses, interval_after=interval_after, is_static=bool(shared.is_static), refused=refused,
+                    base_static=bool(base.is_static))
+
+    def goals(o, L, env):
+        yield "users_sampler_keeps_its_resample_interval", o["interval_after"] == 2
+        yield "non_static_sampler_still_refused_and_left_non_static", bool(o["refused"]) and not o["base_static"]
+        ls = o["losses"]
+        yield "loss_repeats_within_interval[eval1]", L.eq(ls[1][0], ls[0][0])
+        yield "loss_repeats_within_interval[eval3]", L.eq(ls[3][0], ls[2][0])
+
+    return Case(name, body, goals, family="share_static_sampler_with_adaptive_condition", params=dict(order=order))
+
+
 def _pristine(sn):
     """default containers must still be what the signature shows: empty dicts, Points without variables"""
     if sn[0] == "dict":
@@ -576,6 +618,8 @@ def cases(tier):
         cs.append(specialised_function_case(("pinn", "mean"), ev, mode="factory"))
     for order in ("val_first", "train_first"):
         cs.append(shared_base_sampler_case(order))
+    for order in ("pinn_first", "adaptive_first"):
+        cs.append(shared_static_with_adaptive_case(order))
     # ---- periodic sides --------------------------------------------------------------------------------
     for nonper in ("default", "empty_static", "fixed", "fixed_static"):
         cs.append(periodic_sides_case(nonper))
